@@ -158,7 +158,7 @@ Cond = Tuple[ast.AST, bool]  # (test expression, polarity)
 
 
 def path_condition(func_node: ast.AST, target: ast.AST, pm: Optional[Dict] = None,
-                   drop_stale: bool = True) -> List[Cond]:
+                   drop_stale: bool = True, carried: bool = True) -> List[Cond]:
     """Structured path condition of `target` inside func_node: enclosing if/while tests with
     polarity, plus negations of earlier sibling `if`s whose body always exits
     (raise/return; or break/continue relative to the same loop body).
@@ -197,7 +197,7 @@ def path_condition(func_node: ast.AST, target: ast.AST, pm: Optional[Dict] = Non
             seq = getattr(par, fieldname, None)
             if isinstance(seq, list) and node in seq:
                 idx = seq.index(node)
-                for j, prev in enumerate(seq[:idx]):
+                for j, prev in enumerate(seq[:idx] if carried else []):
                     if isinstance(prev, ast.If):
                         body_exits = always_exits(prev.body, loop_exits_count=True)
                         else_exits = bool(prev.orelse) and always_exits(prev.orelse, loop_exits_count=True)
